@@ -410,6 +410,112 @@ theorem simAdvanced_conserve_final (budget : Nat) (mc ms : List Machine) (trace 
 
 end
 
+/-! ### a smaller iteration cap only cuts the run short -/
+
+/-- the same arguments with another iteration cap -/
+def Args.withIters (a : Args) (m : Nat) : Args := { a with maxSimIterations := m }
+
+section
+variable {σ : Type} (ρ : Oracle σ)
+
+/-- a fault under an iteration cap is a fault under every larger cap (with at least as much fuel):
+    until the smaller cap stops the run, both loops do the same -/
+theorem loop_iters_fault (a : Args) (M : Nat) (hpos : 0 < a.maxSimIterations) (hM : a.maxSimIterations ≤ M)
+    (f : SimFault) : ∀ (fuel fuel' : Nat) (st : St σ) (iters cnt : Nat), fuel ≤ fuel' →
+    (loop ρ a fuel st iters cnt).stop = .fault f → (loop ρ (a.withIters M) fuel' st iters cnt).stop = .fault f := by
+  intro fuel
+  induction fuel with
+  | zero => intro fuel' st iters cnt _ h; simp [loop] at h
+  | succ n ih =>
+    intro fuel' st iters cnt hle h
+    obtain ⟨n', rfl⟩ : ∃ n', fuel' = n' + 1 := ⟨fuel' - 1, by omega⟩
+    cases hs : step ρ st with
+    | error f0 =>
+      simp only [loop, hs] at h ⊢
+      exact h
+    | ok o =>
+      cases o with
+      | none => simp [loop, hs] at h
+      | some p =>
+        obtain ⟨r, st'⟩ := p
+        rw [loop_succ_some ρ a n st st' iters cnt r hs] at h
+        rw [loop_succ_some ρ (a.withIters M) n' st st' iters cnt r hs]
+        cases hsc : stopCheck a st' iters (bump a r cnt) with
+        | some s =>
+          simp only [hsc] at h
+          subst h
+          unfold stopCheck at hsc
+          repeat (first | cases hsc | split at hsc)
+        | none =>
+          simp only [hsc] at h
+          have hsc' : stopCheck (a.withIters M) st' iters (bump (a.withIters M) r cnt) = none := by
+            have hb : bump (a.withIters M) r cnt = bump a r cnt := rfl
+            rw [hb]
+            unfold stopCheck at hsc ⊢
+            split at hsc
+            · cases hsc
+            · rename_i h1
+              split at hsc
+              · cases hsc
+              · rename_i h2
+                split at hsc
+                · cases hsc
+                · rename_i h3
+                  have e1 : (a.withIters M).maxTraceLength = a.maxTraceLength := rfl
+                  have e2 : (a.withIters M).continueAfterAllNormal = a.continueAfterAllNormal := rfl
+                  have e3 : (a.withIters M).maxSimIterations = M := rfl
+                  rw [e1, e2, e3]
+                  simp only [Bool.and_eq_true, decide_eq_true_eq, not_and, Nat.not_le] at h2
+                  have h2' := h2 hpos
+                  have h4 : (decide (M > 0) && decide (iters + 1 ≥ M)) = false := by
+                    simp only [Bool.and_eq_false_imp, decide_eq_true_eq, decide_eq_false_iff_not]
+                    intro _; omega
+                  simp only [h1, h3, h4, Bool.false_eq_true, if_false]
+          simp only [hsc']
+          exact ih n' st' (iters + 1) (bump a r cnt) (by omega) h
+
+theorem simAdvanced_iters_fault (budget : Nat) (mc ms : List Machine) (sq : SimQueue) (a : Args) (orc : σ) (M : Nat)
+    (hpos : 0 < a.maxSimIterations) (hM : a.maxSimIterations ≤ M) (f : SimFault)
+    (h : (simAdvanced ρ budget mc ms sq a orc).stop = .fault f) :
+    (simAdvanced ρ budget mc ms sq (a.withIters M) orc).stop = .fault f := by
+  unfold simAdvanced at h ⊢
+  have hinit : initState ρ mc ms sq (a.withIters M) orc = initState ρ mc ms sq a orc := rfl
+  rw [hinit]
+  cases hi : initState ρ mc ms sq a orc with
+  | error f0 => simp only [hi] at h ⊢; exact h
+  | ok st =>
+    simp only [hi, finish_stop] at h ⊢
+    have hf1 : loopFuel a budget = a.maxSimIterations := by simp [loopFuel, hpos]
+    have hf2 : loopFuel (a.withIters M) budget = M := by
+      have : (a.withIters M).maxSimIterations = M := rfl
+      simp only [loopFuel, this]
+      have : M > 0 := by omega
+      simp [this]
+    rw [hf1] at h
+    rw [hf2]
+    exact loop_iters_fault ρ a M hpos hM f _ _ st 0 0 hM h
+
+/-- a fault of a length-capped run is a fault of the uncapped run -/
+theorem simAdvanced_cap_fault (budget : Nat) (mc ms : List Machine) (sq : SimQueue) (a : Args) (orc : σ) (f : SimFault)
+    (h : (simAdvanced ρ budget mc ms sq a orc).stop = .fault f) :
+    (simAdvanced ρ budget mc ms sq a.uncapped orc).stop = .fault f := by
+  rw [← simAdvanced_nonbinding ρ budget mc ms sq a orc (by rw [h]; intro hc; cases hc)]
+  exact h
+
+/-- with an iteration cap the model's own loop budget is never the reason to stop -/
+theorem simAdvanced_no_loopFuel (budget : Nat) (mc ms : List Machine) (sq : SimQueue) (a : Args) (orc : σ)
+    (hm : a.maxSimIterations > 0) : (simAdvanced ρ budget mc ms sq a orc).stop ≠ .loopFuel := by
+  unfold simAdvanced
+  cases hi : initState ρ mc ms sq a orc with
+  | error f => simp
+  | ok st =>
+    simp only []
+    have hf : loopFuel a budget = a.maxSimIterations := by simp [loopFuel, hm]
+    rw [finish_stop]
+    exact (loop_iters ρ a hm (loopFuel a budget) st 0 0 hm (by rw [hf]; omega)).2
+
+end
+
 /-! ### vocabulary of the C15 monitor -/
 
 theorem normalSentCount_map_ev (l : List StepRec) (c : Bool) :
@@ -615,6 +721,13 @@ def widePad : Machine :=
                         none, none, none, none, none, none, none, none] }] }
 
 def wideCase : CaseIn := { demoCase with mc := [widePad] }
+
+/-- a trace that is NOT in time order: packets at 0, 1, 2, … ns, each followed by one 10 s, 20 s, …
+    later; `parse_trace`'s 100 ms window is flushed by every late packet, so it counts at most two
+    packets and derives a limit of 20 per second, although `k` packets fall into the first second -/
+def zigzag (k : Nat) : List RawLine := (List.range k).flatMap fun i => [⟨i, .s⟩, ⟨(i + 1) * 10000000000, .s⟩]
+
+def zigzagCase : CaseIn := { mc := [], ms := [], trace := zigzag 22, delay := 1000 }
 
 /-- two client packets, the second one exactly `Duration::MAX` after the first; no machines, delay 0 -/
 def farCase : CaseIn := { mc := [], ms := [], trace := [⟨0, .s⟩, ⟨durMax, .s⟩], delay := 0 }
